@@ -21,6 +21,7 @@ import (
 	"time"
 
 	"github.com/apache/skywalking-banyandb/api/common"
+	"github.com/apache/skywalking-banyandb/pkg/fs"
 	"github.com/apache/skywalking-banyandb/pkg/timestamp"
 	"github.com/apache/skywalking-banyandb/pkg/verifh"
 )
@@ -42,6 +43,72 @@ func listFiles(root string) []string {
 // changes one of its tables (generation swap: gen1-* files replaced by gen2-* files, one state change of the
 // table). Whoever comes first, the snapshot call succeeds and holds the table's state before or after the change.
 var reopenNs atomic.Int64
+
+// failingLinks is a file system whose hard links fail (a full disk, a link-count limit).
+type failingLinks struct{ fs.FileSystem }
+
+func (failingLinks) CreateHardLink(string, string, func(string) bool) error {
+	return fmt.Errorf("verif: injected hard-link failure")
+}
+
+// failedSnapshotLeavesNothing: a snapshot call that fails on one segment after others were already written reports
+// the error and leaves no directory behind that could be mistaken for (and restored as) a snapshot.
+func failedSnapshotLeavesNothing(s *verifh.Sink, base string) {
+	for c := 0; c < verifh.Pick(6, 60); c++ {
+		r := verifh.Rand("c19seg-fail", c)
+		dir := freshVDir(base)
+		clock := timestamp.NewMockClock()
+		t0 := time.Date(2024, 5, 10, 12, 0, 0, 0, time.UTC)
+		clock.Set(t0)
+		v, err := openVDB(dir, clock, dbOpts{interval: IntervalRule{DAY, 1}, ttl: IntervalRule{DAY, 365}, shards: 1, idle: time.Millisecond, disableRetention: true})
+		if err != nil {
+			s.Violation("c19seg:open", map[string]any{"err": err.Error()})
+			continue
+		}
+		nSeg := 2 + r.Intn(2)
+		var held []Segment[*vTable, any]
+		for i := 0; i < nSeg; i++ {
+			sg, err := v.db.CreateSegmentIfNotExist(time.Unix(0, t0.Add(-time.Duration(i)*24*time.Hour).UnixNano()))
+			if err != nil {
+				continue
+			}
+			if tab, err := sg.CreateTSTableIfNotExist(common.ShardID(0)); err == nil {
+				os.WriteFile(filepath.Join(tab.root, "data-0.bin"), []byte("x"), 0o644)
+			}
+			if r.Intn(2) == 0 {
+				held = append(held, sg) // stays open
+			} else {
+				sg.DecRef()
+			}
+		}
+		time.Sleep(3 * time.Millisecond)
+		v.sc.closeIdleSegments()
+		segs := v.sc.copySegments()
+		for f := range segs {
+			orig := segs[f].lfs
+			segs[f].lfs = failingLinks{orig}
+			dst := fmt.Sprintf("%s.snapshot%d", dir, f)
+			os.RemoveAll(dst)
+			created, serr := v.db.TakeFileSnapshot(dst)
+			segs[f].lfs = orig
+			_, statErr := os.Stat(dst)
+			s.Case(fmt.Sprint("failed-snapshot/", c, "/", f, "/", nSeg), f > 0)
+			s.Count("c19seg.snapshot_calls_with_an_injected_link_failure", 1)
+			switch {
+			case serr == nil:
+				s.Violation("c19seg:failed-snapshot:error-not-reported", map[string]any{"case": c, "failing_segment": f, "segments": nSeg, "created": created})
+			case statErr == nil:
+				s.Violation("c19seg:failed-snapshot:partial-directory-left-behind", map[string]any{"case": c, "failing_segment": f, "segments": nSeg, "left": listFiles(dst)})
+			}
+			os.RemoveAll(dst)
+		}
+		for _, h := range held {
+			h.DecRef()
+		}
+		v.db.Close()
+		os.RemoveAll(dir)
+	}
+}
 
 func closedCopyVersusReopen(s *verifh.Sink, base string) {
 	const nFiles = 3000
@@ -145,6 +212,7 @@ func TestVerifC19Segments(t *testing.T) {
 	s := verifh.S()
 	base := filepath.Join(verifh.Scratch(), "c19seg")
 	closedCopyVersusReopen(s, base)
+	failedSnapshotLeavesNothing(s, base)
 	for c := 0; c < verifh.Pick(40, 1200); c++ {
 		r := verifh.Rand("c19seg", c)
 		dir := freshVDir(base)
